@@ -118,8 +118,8 @@ def act(app, a, x, text=None, nodes=None):
     elif a == 7:  # jump-to (search result)
         if nodes:
             App._handle_jump_result(app, nodes[x % len(nodes)])
-    elif a == 8:  # load other file
-        App._handle_load_result(app, "/m/proj/other")
+    elif a == 8:  # load other file (one of two prepared files, or a missing one)
+        App._handle_load_result(app, ("/m/proj/other", "/m/proj/other2", "/m/proj/missing")[x % 3])
     elif a == 9:  # save
         App.action_save(app)
 
